@@ -202,7 +202,7 @@ def gen_runs(ctx):
             second = dict(base)
             what = rng.choice(["grasses", "grasses", "grasses", "kg", "strategy", "waste"])
             if what == "grasses":
-                base["grasses"], second["grasses"] = rng.sample(["baseline", "global_nuclear_winter", "country_nuclear_winter"], 2)
+                base["grasses"], second["grasses"] = rng.sample(["baseline", "country_nuclear_winter"], 2)
             elif what == "kg":
                 base["kg_meat_per_large_animal"], second["kg_meat_per_large_animal"] = 150, 400
             elif what == "strategy":
